@@ -165,7 +165,7 @@ def _transpose_sparse_matrix_on_disk_v2(
             data = dst.create_dataset(
                 'data',
                 shape=(indices_size,),
-                chunks=(min(indptr_size, 1000000),),
+                chunks=indices.chunks,
                 dtype=data_dtype)
 
         chunk_size = 1000000
